@@ -38,7 +38,7 @@ PROBES_REQUIRED = ["reader_opened_damaged_cache", "fs_crash_in_write", "fs_enosp
                    "race_reader_saw_partial", "fs_stalled_reader"]
 
 KINDS = ["trunc", "trunc", "trunc", "zero", "crash", "enospc", "race", "race", "zip", "crash", "enospc-close",
-         "splice"]
+         "splice", "shrink-at-open"]
 PROTOS = proto.LISTING_PROTOCOLS
 
 
@@ -248,7 +248,18 @@ def _exec_cut(sc, root, refs, sel, tp):
         size = os.path.getsize(cachepath)
         cut = common.cut_from_spec(sc["cut"], size)
         restart = False
-        if viol is None and kind in ("trunc", "zero"):
+        if viol is None and kind == "shrink-at-open":
+            # the cache file is cut short (a racing writer, a crash) after this reader's stat() and before its
+            # open(): it reads fewer bytes than the size it saw
+            frac = sc["cut"].get("frac", 0.5) if isinstance(sc["cut"], dict) else 0.5
+            if "abs" in sc["cut"]:
+                frac = 0.0 if sc["cut"]["abs"] == 0 else min(0.99, sc["cut"]["abs"] / max(1.0, float(size)))
+            if "from_end" in sc["cut"]:
+                frac = max(0.0, (size - sc["cut"]["from_end"]) / max(1.0, float(size)))
+            run.fs.faults.append(simfs.Fault("open", cacherel, "shrink", nth=0, cut=frac, mode="r"))
+            counters["stored_file_damaged"] = 1
+            run.advance(1.0)
+        elif viol is None and kind in ("trunc", "zero"):
             if kind == "trunc":
                 if sc.get("sweep") and sc["cut"]["abs"] > size:
                     return common.result(None, None, {}, common.run_digest(run, resps), tp.rec, 0.0)
